@@ -4,54 +4,25 @@ CFG = dict(
     imports=["From Verif.C25 Require Import Model Spec.", "Open Scope N_scope."],
     checker="check_case",
     n=dict(quick=500, thorough=12000),
+    driver_args=lambda ctx, n, seed: ["-n", n, "-seed", seed, "-nclient", max(40, n // 12)],
     rule="op sequences over 6 keys x 3 values against the real DedupeBuffer with a recording sink: protocol-shaped runs "
          "(changing datastore, snapshot in batches, in-sync, deltas, 2-4 connections, restarts also mid-snapshot), "
          "unconstrained op soups and a boundary stream (duplicates, deletes of unknown keys, status flapping, back-to-back "
-         "restarts, pull 0); pulls of size 0-4 and full drains at arbitrary points; non-trivial = a restart happened while "
+         "restarts, pull 0); second stream (about 1 in 13 cases): the REAL syncclient.SyncerClient (Start, reconnect goroutine, "
+         "startOneConnection, connect, loop) with the REAL DedupeBuffer as its callbacks over loopback TCP against a scripted "
+         "Typha endpoint (snapshot in batches, in-sync, deltas, connection dropped mid-snapshot / after in-sync / refused at the "
+         "handshake, datastore changed while away), history given to model and oracle = the endpoint's ground truth (every drop "
+         "is a restart); pulls of size 0-4 and full drains at arbitrary points; non-trivial = a restart happened while "
          "the sink held at least one key and later the buffer was empty with the latest connection in sync; distinct by op list",
     trusted=["Coq 8.16.1 kernel + vm_compute",
              "hand-written model coq/theories/C25/Model.v tied to dedupe_buffer.go by this correspondence run",
-             "Go driver harness/C25 (overlay build, tag verif) with the export shim zz_verif_c25.go (VerifPull = pullNextBatch + dropLockAndSendBatch)"],
+             "Go driver harness/C25 (overlay build, tag verif) with the export shim zz_verif_c25.go (VerifPull = pullNextBatch + dropLockAndSendBatch)",
+             "scripted Typha endpoint inside the driver (accept loop, handshake, MsgKVs/MsgSyncStatus/MsgPing) for the real-syncclient stream"],
     assumptions=["the consumer's pull-and-deliver is atomic w.r.t. producer callbacks (batch content and liveResourceKeys are fixed under the lock in pullNextBatch, so the sink's stream is unaffected by interleaving)",
                  "Go map iteration order over liveKeysNotSeenSinceReconnect is an explicit, universally quantified parameter of the model",
                  "model.Key values are compared by Go equality (keys are abstract naturals in the model)",
-                 "syncclient calls OnTyphaConnectionRestarted() before delivering anything from a new connection (checked only at source level by props/C25.py:_restart_call_check; the client's network loop is not executed)"],
+                 "second stream: the scripted endpoint speaks the gob Envelope protocol without compression (DisableDecoderRestart) and follows each message with ping/pong so that the driver acts only when the client is idle; the real Typha server side is C24's subject"],
 )
-
-import os, re
-
-def _restart_call_check(ctx, lines):
-    """The theorems assume the client announces a new connection with OnTyphaConnectionRestarted() before anything
-    from that connection reaches the buffer.  Source-level (translation-style) check of that one fact in
-    typha/pkg/syncclient/sync_client.go: inside SyncerClient.Start's reconnect loop the call is present and precedes
-    the startOneConnection call of the loop.  Silent when the function cannot be located (refactor)."""
-    path = os.path.join(ctx.repo, "typha/pkg/syncclient/sync_client.go")
-    try:
-        src = open(path).read()
-    except OSError:
-        return []
-    src = re.sub(r"//[^\n]*", "", src)
-    m = re.search(r"func \(s \*SyncerClient\) Start\(.*?\n}\n", src, re.S)
-    if not m:
-        ctx.log("C25: SyncerClient.Start not found; restart-call check skipped")
-        return []
-    body = m.group(0)
-    loop = body.find("for cxt.Err() == nil")
-    if loop < 0:
-        ctx.log("C25: reconnect loop not found; restart-call check skipped")
-        return []
-    tail = body[loop:]
-    call = tail.find(".OnTyphaConnectionRestarted()")
-    start = tail.find("startOneConnection(")
-    if start >= 0 and (call < 0 or call > start):
-        return [(dict(kind="restart-not-announced", file="typha/pkg/syncclient/sync_client.go",
-                      note="SyncerClient.Start reconnects (startOneConnection in the reconnect loop) without first calling "
-                           "OnTyphaConnectionRestarted() on the callbacks: the buffer then treats the new snapshot as deltas, "
-                           "resources deleted while disconnected are never removed downstream (hypothesis of c25_converges unmet)"),
-                 "")]
-    return []
-
-CFG["extra"] = _restart_call_check
 
 def run(ctx):
     return vlib.standard_flow(ctx, CFG)
